@@ -66,3 +66,9 @@ def ddmin_batch(items, test_many):
                 break
             n = min(n * 2, len(items))
     return items
+
+
+def letters_hex(pattern_bytes):
+    """the non-ASCII runes of a regex source that unicode.IsLetter accepts (the Lean port takes IsLetter as data)"""
+    t = pattern_bytes.decode("utf-8", "replace")
+    return "".join(sorted({c for c in t if ord(c) > 127 and c != "\ufffd" and c.isalpha()})).encode().hex() or "-"
